@@ -33,7 +33,7 @@ def generate(rng, tier):
             cs.append(Case("srv.proof %s %s %s | %s" % (enc(us), le32(vv).hex(), salt.hex(), b.hex()), "server-public-key",
                            "ok %s %s ~32" % (le32(B).hex(), salt.hex())))
     # announced groups on the client
-    groups = [(7, N)]
+    groups = [(7, N)] + [(g, N) for g in (2, 3, 5, 11, 255)] + [(7, rand_prime(rng, nb)) for nb in (2, 8, 31, 32, 32)]
     ng = 60 if tier == "quick" else 1500
     for i in range(ng):
         nb = rng.choice([2, 2, 3, 8, 31, 32])
@@ -69,6 +69,26 @@ def generate(rng, tier):
                     cs.append(Case("cli.verify %s %s | %s" % (base, e["M2"].hex(), a.hex()), kind + "-verify", "ok %s ~32" % e["K"].hex()))
                     found += 1
                     break
+    # zero bytes *inside* S right after the low-order zero run (and elsewhere): the strip rule must look at the
+    # run only, not at later zero bytes
+    for zeros in range(31):
+        for pat in ("z", "zz", "znz"):
+            body = bytearray(rbytes(rng, 32))
+            for i in range(32):
+                if body[i] == 0: body[i] = 1
+            for i in range(zeros): body[i] = 0
+            q = zeros + 1
+            for ch in pat:
+                if q < 31:
+                    if ch == "z": body[q] = 0
+                    q += 1
+            body[31] &= 0x7f
+            if body[31] == 0: body[31] = 1
+            A = bytes(body)
+            salt = rbytes(rng, 32); chal = rbytes(rng, 16)
+            K = pyref.interleave(A); m1 = pyref.M1(b"BOB", salt, A, le32(10), K)
+            cs.append(Case("srv.server %s %s %s %s %s | %s%s" % (enc("bob"), le32(1).hex(), salt.hex(), A.hex(), m1.hex(), le32(1).hex(), chal.hex()),
+                           "server-S-low-zeros=%d-then-inner-zero" % zeros, "ok %s %s %s ~48" % (K.hex(), pyref.M2(A, m1, K).hex(), chal.hex())))
     # server interleave classes (S = A through v = 1, b = 1)
     for zeros in range(32):
         A = bytes(zeros) + bytes([rng.randint(1, 127)]) + (rbytes(rng, 30 - zeros) + b"\x01" if zeros < 31 else b"")
